@@ -135,33 +135,6 @@ mod verif_kani {
         kani::cover!(n == 4 && max == 3);
     }
 
-    /// scrape truncation for every datagram that fits the receive buffer (8192 bytes): length and an arbitrary element
-    #[kani::proof]
-    #[kani::unwind(22)]
-    fn parse_scrape_any_len() {
-        const CAP: usize = 8192;
-        let buf: [u8; CAP] = kani::any();
-        let n: usize = kani::any();
-        kani::assume(n >= 1 && 16 + 20 * n <= CAP);
-        let len = 16 + 20 * n;
-        let max: u8 = kani::any();
-        let b = &buf[..len];
-        kani::assume(be_i32(b, 8) == 2);
-        let r = Request::parse_bytes(b, max);
-        match r {
-            Ok(Request::Scrape(s)) => {
-                let want = if (max as usize) < n { max as usize } else { n };
-                assert!(s.info_hashes.len() == want, "[C06.parse.scrape_truncation_any_len][C13.req.scrape.truncation_any_len] min(n, max) hashes for every n that fits a datagram");
-                let i: usize = kani::any();
-                if i < want {
-                    assert!(s.info_hashes[i].0 == bytes20(b, 16 + 20 * i), "[C06.parse.scrape_order_any_len][C13.req.scrape.order_any_len] element i is the i-th requested hash");
-                }
-            }
-            _ => assert!(false, "[C13.req.scrape.accept_any_len] conforming scrape must be accepted"),
-        }
-        kani::cover!(n == 300);
-    }
-
     fn any_announce() -> AnnounceRequest {
         let ev = match kani::any::<u8>() % 4 { 0 => AnnounceEvent::None, 1 => AnnounceEvent::Completed, 2 => AnnounceEvent::Started, _ => AnnounceEvent::Stopped };
         AnnounceRequest {
